@@ -440,10 +440,15 @@ fn run_file(t: &mut Trace, case: u64, rng: &mut Rng, adlt: &str, tmp: &str, n: u
     }
     let n = if boundary.is_some() { msgs.len() } else { n };
     for i in 0..(if boundary.is_some() { 0 } else { n }) {
-        let shape = if i < 64 { (i % 32) as u32 } else { rng.below(32) as u32 };
+        // every third file STARTS with a maximal (or nearly maximal) message, in a header shape that rotates with the case number:
+        // whatever convert looks at before its main pass (first message of each input file) has to cope with 65551 bytes
+        let first_big = i == 0 && case % 3 == 1;
+        let shape = if first_big { (case / 3 % 32) as u32 } else if i < 64 { (i % 32) as u32 } else { rng.below(32) as u32 };
         let max = 65535 - (4 + 4 * (shape & 1) + 2 * (shape & 2) + (shape & 4) + 10 * ((shape >> 3) & 1)) as usize;
         let step = (n / n_big.max(1)).max(1);
-        let pay_len = if n_big > 0 && i % step == 3 % step && i / step < n_big {
+        let pay_len = if first_big {
+            max - rng.below(3) as usize
+        } else if n_big > 0 && i % step == 3 % step && i / step < n_big {
             max - rng.below(2) as usize
         } else {
             match rng.below(8) {
